@@ -151,6 +151,7 @@ KINDS = {
     'modifier-method': '''
 from sigtools import modifiers
 class A(object):
+    def __len__(self): return 0          # instances are falsy
     @modifiers.kwoargs('b')
     def m(self, a, b=2): return (self, a, b)
 class S(A): pass
@@ -177,6 +178,7 @@ ARGS = ((1, 2), {'y': 5})
     'forger-method-attribute': '''
 from sigtools import specifiers
 class A(object):
+    def __len__(self): return 0          # instances are falsy
     def target(self, x, y=1): return (x, y)
     @specifiers.forwards_to_method('target')
     def m(self, a, *args, **kwargs): return (self, a, self.target(*args, **kwargs))
@@ -188,6 +190,7 @@ from sigtools import specifiers
 class B(object):
     def m(self, x, y=1): return (self, x, y)
 class A(B):
+    def __len__(self): return 0          # instances are falsy
     @specifiers.forwards_to_super(emulate=True)
     def m(self, a, *args, **kwargs): return (self, a, super().m(*args, **kwargs))
 class S(A): pass
